@@ -77,6 +77,10 @@ class NotEnabled(Exception):
     pass
 
 
+class SharedAfterTournament(Exception):
+    pass
+
+
 # ------------------------------------------------------------------------------------------ operations
 def build(cfg):
     kw = {}
@@ -135,6 +139,15 @@ def apply_op(agent, op, cfg, step):
         ts = O.TournamentSelection(2, True, 3, 1)
         with seeded(step):
             elite, new = ts.select(pop)
+        # elite, the new generation and the old population are all copies of each other (siblings): none may be the same
+        # object as, or share storage with, another
+        fam = [("elite", elite)] + [(f"new[{i}]", m) for i, m in enumerate(new)] + [(f"old[{i}]", m) for i, m in enumerate(pop)]
+        for (na, a), (nb, b) in itertools.combinations(fam, 2):
+            if a is b:
+                raise SharedAfterTournament(f"{na} and {nb} are the same object")
+            hits = O.shared_storage(a, b)
+            if hits:
+                raise SharedAfterTournament(f"{na} and {nb} share {O.classify_tensor_name(hits[0][0])}")
         return new[1]
     raise HarnessError(f"unknown op {op}")
 
@@ -272,6 +285,9 @@ def check_history(p: Partial, cfg, hist):
         p.extra["histories_with_op_not_enabled"] += 1
         p.evaluations -= 1
         p.traces -= 1
+        return
+    except SharedAfterTournament as e:
+        p.viol(f"{algo}/tournament/copies-share-state", f"after a tournament round in history {hist}: {e}", rp)
         return
     except Exception as e:
         # operations other than clone failing belong to other properties (C02/C20); not judged here
